@@ -301,7 +301,9 @@ class ParallelTempering:
         t2 = time()
 
         # number of cycles chosen to give a print-out roughly every 2 seconds
-        N = max(1, int(2.0 / (t2 - t1)))
+        # (one cycle if the clock is too coarse to have resolved the timing cycle)
+        cycle_time = t2 - t1
+        N = max(1, int(2.0 / cycle_time)) if cycle_time > 0 else 1
 
         while time() < end_time:
             for i in range(N):
